@@ -61,8 +61,10 @@ def build(spec, stream, start, example_rows=0):
         ex = (None, pd.Series({'x': 0.0, 'y': 0.0})) if frame else (None, 0.0)
         return col(sdf).accumulate_partitions(agg.accumulator, agg=A, start=start, stream_type='updating',
                                            returns_state=True, with_state=True, example=ex), True
+    # the grouper: a column name, or a streaming series (an array-like grouper travels with the state)
+    grouper = sdf.name if spec.get('series_grouper') else 'name'
     if k == 'gb':
-        g = sdf.groupby('name').x
+        g = sdf.groupby(grouper).x
         if op in ('sum', 'count'):
             return getattr(g, op)(start=start), False
         return g.mean(with_state=True, start=start), True
@@ -75,7 +77,7 @@ def build(spec, stream, start, example_rows=0):
             return w.size, True
         return getattr(w, op)(), True
     if k == 'wgb':
-        w = sdf.window(n=spec.get('n'), value=spec.get('value'), with_state=True, start=start).groupby('name').x
+        w = sdf.window(n=spec.get('n'), value=spec.get('value'), with_state=True, start=start).groupby(grouper).x
         return getattr(w, op)(), True
     if k == 'expanding':
         w = col(sdf.expanding(with_state=True, start=start))
@@ -234,6 +236,8 @@ def evaluate(prop, sc, want_trace=False):
     out.probes['agg:' + spec['kind']] = 1
     if spec.get('frame'):
         out.probes['frame_level'] = 1
+    if spec.get('series_grouper'):
+        out.probes['series_grouper'] = 1
     if ex_rows:
         out.probes['non_empty_example'] = 1
     if by_ref:
@@ -267,6 +271,8 @@ def generate(prop, rng, seed, index, tier):
             spec['value'] = rng.choice(['2s', '5s', '10s'])
     if kind == 'ewm':
         spec['com'] = rng.choice([0.5, 1, 2, 5])
+    if kind in ('gb', 'wgb') and rng.random() < 0.45:
+        spec['series_grouper'] = True
     if kind in ('red', 'rolling', 'window', 'expanding', 'ewm') and spec.get('op') != 'size' and rng.random() < 0.35:
         spec['frame'] = True
     nb = rng.randrange(2, 9 if big else 7)
